@@ -153,7 +153,7 @@ fn cfg_for(property: &str, tier: Tier) -> GenCfg {
             lrus: vec![4096],
             policies: vec![Policy::Shuffle, Policy::Shuffle, Policy::Lookalike, Policy::Lookalike, Policy::Spicy],
             min_len: 20,
-            max_len: if thorough { 200 } else { 90 },
+            max_len: if thorough { 320 } else { 200 },
             weights: [60, 25, 0, 0, 6, 0, 0, 0, 0],
             brackets: vec![],
             register: true,
@@ -579,6 +579,24 @@ pub fn exec(plan: &Plan) -> Outcome {
         let cur = model.last().unwrap().clone();
         if cur.fingerprint() % 64 == 0 {
             out.state_sample.push(cur.fingerprint());
+        }
+        if i % 16 == 7 && matches!(prop, "C04" | "C17" | "C16") {
+            // the game goes on on a copy of the board: a copy is the same board, history included
+            set_phase("make");
+            let copy = board.clone();
+            evals += 1;
+            stats.bump("fault/continued-on-a-copy-of-the-board");
+            if let Some(field) = snapshot_diff(&snapshot(&board), &snapshot(&copy)) {
+                let owner = match field {
+                    "halfmove-clock" | "fullmove-counter" => "C16",
+                    "max-seen-position-count" | "repetition-map" => "C17",
+                    _ => "C04",
+                };
+                if prop == "C04" || prop == owner {
+                    violate!(i, format!("{}/copy-of-the-board-differs/{}", prop, field), format!("{}: {} of a clone differs from the original", cur.to_fen(), field));
+                }
+            }
+            board = copy;
         }
         match op {
             Op::Make(k) => {
